@@ -11,6 +11,10 @@ R31.1 sibling_arms(EditOp): per variant,
 R31.2 the matrix fill agrees with the back-track table (see fill_rules): the operation recorded for a cell names the
       predecessor whose cost was taken, each candidate test compares the cell that is then taken, boundary row / column
       carry Insert / Delete, Keep copies d[i-1][j-1].
+R31.3 constant scripts (`vec![op; n]`, the early returns for an empty sequence): Insert consumes an expected symbol and Delete a
+      scanned token (R31.1), so Insert must not be chosen where `exp.is_empty()` is known to hold, Delete not where
+      `act.is_empty()` holds, Keep / Replace under neither; a count that is plainly `act.len()` / `exp.len()` must be the length
+      of the sequence the operation consumes (seed C31-d).
 Minimality of the distance as a value and scripts produced by a *restructured* algorithm (e.g. prefix stripping, seed
 C31-a) are NOT decided.
 """
@@ -163,6 +167,7 @@ def check(ctx):
               "the back-tracked operations are not reversed exactly once after the loop (%d reverse calls): the script would "
               "be applied back to front" % len(revs), where(lev))
     fill_rules(ctx, facts, lev)
+    boundary_scripts(ctx, lev)
 
 
 # ------------------------------------------------------------------------------------------------------------------ R31.2
@@ -308,6 +313,11 @@ def fill_rules(ctx, facts, lev):
            all(_cost_cell(lev, x[3]) is not None for x in lev.defs(l) if x[0] == "assign")]
     OP = [l for l in range(len(lev.locals)) if lev.local_name(l) and lev.local_ty(l).endswith("EditOp") and
           not lev.local_ty(l).startswith("&") and len([x for x in lev.defs(l) if x[0] == "assign"]) >= 2]
+    if len(MIN) == 1 and len(OP) > 1:
+        # the recorded operation of the fill is assigned after (dominated by) an assignment of the running minimum; an
+        # EditOp variable of an early return in front of the matrix is not
+        mb = [x[1] for x in lev.defs(MIN[0]) if x[0] == "assign"]
+        OP = [l for l in OP if any(any(dom.dominates(m, x[1]) for m in mb) for x in lev.defs(l) if x[0] == "assign")]
     if len(MIN) != 1 or len(OP) != 1:
         raise AnchorMissing("levenshtein_distance: cannot identify the running minimum / recorded operation of the fill loop "
                             "(%s / %s)" % (MIN, OP))
@@ -419,3 +429,74 @@ def fill_rules(ctx, facts, lev):
             ctx.check(okk, "R31.2", "fill|Keep", "Keep is recorded together with d[i][j] = d[i-1][j-1]",
                       "Keep is recorded but the cost stored for the cell is not d[i-1][j-1] unchanged", where(lev, line))
     ctx.require_floor("R31.2", "operation_matrix_stores", len(stores), 4)
+
+
+def boundary_scripts(ctx, lev):
+    """R31.3 constant scripts built with vec![op; n]"""
+    dom = cfg.Dom(lev)
+    def seq_of_ref(opnd):
+        # operand -> 1 (act) | 2 (exp) when it is a reborrow of that argument
+        pl = raw_operand_place(lev, opnd)
+        if not pl:
+            return None
+        sd = single_def(lev, pl[0])
+        if sd and sd[0] == "assign" and sd[3][0] == "ref" and sd[3][2] and sd[3][2][0] in (1, 2):
+            return sd[3][2][0]
+        return pl[0] if pl[0] in (1, 2) else None
+
+    # switches on act.is_empty() / exp.is_empty()
+    guards = []
+    for c in lev.calls():
+        if (c.path or "").endswith("slice::is_empty") and c.dest and len(c.dest) == 1 and c.args:
+            sq = seq_of_ref(c.args[0])
+            if sq is None:
+                continue
+            for d in range(len(lev.blocks)):
+                t = lev.term(d)
+                if t[0] == "switch" and t[1][0] in ("c", "m") and t[1][1] == c.dest:
+                    guards.append((d, sq))
+    name = {1: "act", 2: "exp"}
+    consumes = {"Insert": 2, "Delete": 1}
+    n = 0
+    for c in lev.calls():
+        if not (c.path or "").endswith("vec::from_elem") or "EditOp" not in (c.callee.get("pa") or "") or len(c.args) < 2:
+            continue
+        src = raw_operand_place(lev, c.args[0])
+        recs = []
+        todo = [src[0]] if src else []
+        seen = set()
+        while todo:
+            l = todo.pop()
+            if l in seen:
+                continue
+            seen.add(l)
+            for x in lev.defs(l):
+                if x[0] != "assign":
+                    continue
+                if x[3][0] == "agg" and x[3][2] == EDITOP:
+                    recs.append((x[1], x[3][3]))
+                elif x[3][0] == "use":
+                    q = raw_operand_place(lev, x[3][1])
+                    if q:
+                        todo.append(q[0])
+        cnt = None
+        cp = raw_operand_place(lev, c.args[1])
+        cd = single_def(lev, cp[0]) if cp else None
+        if cd and cd[0] == "call" and (cd[2].path if len(cd) == 3 else cd[3].path or "").endswith("slice::len"):
+            cc = cd[2] if len(cd) == 3 else cd[3]
+            cnt = seq_of_ref(cc.args[0]) if cc.args else None
+        for B, v in recs:
+            n += 1
+            empty = {sq for d, sq in guards if dom.dominates(d, B) and only_via_edge(lev, d, {None}, B)}
+            want = consumes.get(v)
+            bad = None
+            if want is None and empty:
+                bad = "%s is chosen where %s is known to be empty" % (v, "/".join(name[e] for e in sorted(empty)))
+            elif want in empty:
+                bad = "%s is chosen where %s.is_empty() holds: there is nothing it could consume" % (v, name[want])
+            elif want is not None and cnt is not None and cnt != want:
+                bad = "%s is repeated %s.len() times but consumes one element of %s each" % (v, name[cnt], name[want])
+            ctx.check(bad is None, "R31.3", "constant-script|%s" % v,
+                      "vec![%s; n]: the operation consumes the sequence that is not known to be empty" % v,
+                      "%s: the script does not turn the scanned sequence into the expected one when exactly one of them is "
+                      "empty" % bad, where(lev, c.line))
